@@ -214,7 +214,7 @@ var targets = []target{
 		Structs: []string{"Bridge", "Claim", "CertificateHeader", "CertificateBuildParams"},
 		StructsFrom: map[string]string{"Bridge": "bridgesync/processor.go", "Claim": "bridgesync/processor.go", "CertificateHeader": "aggsender/types/types.go"},
 		StructFields: map[string][]string{
-			"Bridge": {"BlockNum", "Metadata", "DepositCount"}, "Claim": {"BlockNum", "Metadata"}, "CertificateHeader": {"Height"},
+			"Bridge": {"BlockNum", "Metadata", "DepositCount"}, "Claim": {"BlockNum", "Metadata"}, "CertificateHeader": {"Height", "FromBlock"},
 			"CertificateBuildParams": {"FromBlock", "ToBlock", "Bridges", "Claims", "RetryCount", "LastSentCertificate", "CertificateType"}},
 		IntTypes: []string{"CertificateType"},
 		Extra: []extraSrc{{File: "common/common.go", Alias: "aggkitcommon"}, {File: "agglayer/types/types.go", Alias: "agglayertypes"},
@@ -238,14 +238,15 @@ var targets = []target{
 			Funcs: []string{"CertificateStatus.IsOpen", "CertificateStatus.IsClosed", "CertificateStatus.IsSettled", "CertificateStatus.IsInError"}}},
 		Funcs: []string{"initialStatus.getLatestAggLayerCert", "initialStatus.checkAgglayerConsistenceCerts", "initialStatus.process"}},
 	{File: "aggsender/flows/flow_base.go", Out: "GenLimitCert.v",
-		Module: "aggsender/flows/flow_base.go (limitCertSize), on top of Gen/GenBuildParams.v",
-		IntLit: true, Ctx: "baseFlow", Imports: []string{"Gen.GenBuildParams"},
+		Module: "aggsender/flows/flow_base.go (limitCertSize, getNewLocalExitRoot, verifyRetryCertStartingBlock), on top of Gen/GenBuildParams.v",
+		IntLit: true, Hash: true, Ctx: "baseFlow", Imports: []string{"Gen.GenBuildParams"}, DropParams: []string{"ctx"},
+		CtxCalls: map[string]ctxCall{"GetExitRootByIndex": {Var: "exitRootByIndex", Params: []ty{{k: kInt}}, Rets: []ty{hashT, {k: kErr}}}},
 		Structs: []string{"Bridge", "Claim", "CertificateHeader", "CertificateBuildParams", "BaseFlowConfig"},
 		ExternStructs: []string{"Bridge", "Claim", "CertificateHeader", "CertificateBuildParams"},
 		StructsFrom: map[string]string{"Bridge": "bridgesync/processor.go", "Claim": "bridgesync/processor.go", "CertificateHeader": "aggsender/types/types.go",
 			"CertificateBuildParams": "aggsender/types/certificate_build_params.go"},
 		StructFields: map[string][]string{
-			"Bridge": {"BlockNum", "Metadata", "DepositCount"}, "Claim": {"BlockNum", "Metadata"}, "CertificateHeader": {"Height"},
+			"Bridge": {"BlockNum", "Metadata", "DepositCount"}, "Claim": {"BlockNum", "Metadata"}, "CertificateHeader": {"Height", "FromBlock"},
 			"CertificateBuildParams": {"FromBlock", "ToBlock", "Bridges", "Claims", "RetryCount", "LastSentCertificate", "CertificateType"},
 			"BaseFlowConfig":         {"MaxCertSize"}},
 		IntTypes:  []string{"CertificateType"},
@@ -254,8 +255,11 @@ var targets = []target{
 			"CertificateBuildParams.EstimatedSize":  {Rets: []ty{{k: kInt}}, RecvOpt: true},
 			"CertificateBuildParams.NumberOfBlocks": {Rets: []ty{{k: kZ}}, RecvOpt: true},
 			"CertificateBuildParams.Range": {Rets: []ty{{k: kOpt, sub: []ty{{k: kStruct, name: "CertificateBuildParams"}}}, {k: kErr}}},
+			"CertificateBuildParams.NumberOfBridges": {Rets: []ty{{k: kZ}}, RecvOpt: true},
+			"CertificateBuildParams.MaxDepositCount": {Rets: []ty{{k: kInt}}, RecvOpt: true},
+			"CertificateBuildParams.IsARetry":        {Rets: []ty{{k: kBool}}, RecvOpt: true},
 		},
-		Funcs: []string{"baseFlow.limitCertSize"}},
+		Funcs: []string{"baseFlow.limitCertSize", "baseFlow.getNewLocalExitRoot", "baseFlow.verifyRetryCertStartingBlock"}},
 	{File: "aggsender/types/block_range.go", Out: "GenBlockRange.v", Module: "aggsender/types/block_range.go",
 		Structs: []string{"BlockRange"},
 		Funcs:   []string{"getBlockMinusOne", "BlockRange.CountBlocks", "BlockRange.IsEmpty", "BlockRange.Gap"}},
@@ -833,6 +837,17 @@ func (t *tr) call(v *ast.CallExpr, en *env) (string, ty) {
 		if cc, ok := t.tg.CtxCalls[chain[len(chain)-1]]; ok { // a call through the context: an oracle
 			var args []string
 			for _, a := range v.Args {
+				if aid, ok := a.(*ast.Ident); ok {
+					isDropped := false
+					for _, d := range t.tg.DropParams {
+						if d == aid.Name {
+							isDropped = true
+						}
+					}
+					if isDropped {
+						continue
+					}
+				}
 				c, _ := t.expr(a, en)
 				args = append(args, c)
 			}
@@ -990,6 +1005,16 @@ func (t *tr) ptrBase(e ast.Expr, en *env) ast.Expr {
 		inner, ok := x.(*ast.SelectorExpr)
 		if !ok {
 			return nil
+		}
+		if root, ok := selChain(inner); ok { // a pointer field of a record that is itself at hand (p.q.f with p a record or a bound pointer)
+			if rt, isVar := en.vars[root[0]]; isVar && rt.k == kStruct || en.deref[types.ExprString(inner.X)] != "" {
+				saved := t.errs
+				_, xt := t.expr(x, en.clone())
+				t.errs = saved
+				if xt.k == kOpt && len(xt.sub) == 1 && xt.sub[0].k == kStruct {
+					return x
+				}
+			}
 		}
 		sel = inner
 	}
@@ -1416,6 +1441,23 @@ func (t *tr) block(list []ast.Stmt, en *env, tail string, ind string) string {
 	s, rest := list[0], list[1:]
 	if t.dropped(s, en) {
 		return t.block(rest, en, tail, ind)
+	}
+	if is, ok := s.(*ast.IfStmt); ok && is.Init == nil && en.panicVar != "" {
+		// `if A && B` / `if A || B` where only B dereferences a pointer: B is evaluated (and can panic) only when A lets it.
+		// The statement is split into two nested ifs, so that the dereference is met on that path only.
+		if be, ok := is.Cond.(*ast.BinaryExpr); ok && (be.Op == token.LAND || be.Op == token.LOR) {
+			left := t.nilDerefs(&ast.IfStmt{Cond: be.X, Body: is.Body}, en)
+			if all := t.nilDerefs(s, en); len(left) == 0 && len(all) > 0 {
+				inner := &ast.IfStmt{Cond: be.Y, Body: is.Body, Else: is.Else}
+				var outer *ast.IfStmt
+				if be.Op == token.LAND {
+					outer = &ast.IfStmt{Cond: be.X, Body: &ast.BlockStmt{List: []ast.Stmt{inner}}, Else: is.Else}
+				} else {
+					outer = &ast.IfStmt{Cond: be.X, Body: is.Body, Else: &ast.BlockStmt{List: []ast.Stmt{inner}}}
+				}
+				return t.block(append([]ast.Stmt{outer}, rest...), en, tail, ind)
+			}
+		}
 	}
 	if ds := t.nilDerefs(s, en); len(ds) > 0 && en.panicVar != "" && !en.inLoop {
 		// the statement dereferences a pointer that no test in sight shows to be non-nil: Go panics when it is nil. The generated
